@@ -34,7 +34,9 @@ def run(ctx):
     common.build_godrv(ctx)
     proof_ok = common.prove(ctx)
     dis = {"match": common.run_stream(ctx, "match", callcheck.match_ops(ctx.rng, ctx.pick(20000, 200000))),
-           "bind": common.run_stream(ctx, "bind", callcheck.bind_ops(ctx.rng, ctx.pick(12000, 120000)), cwd=common.make_workdir(ctx, "bindcfg"))}
+           "bind": common.run_stream(ctx, "bind", callcheck.bind_ops(ctx.rng, ctx.pick(12000, 120000)), cwd=common.make_workdir(ctx, "bindcfg")),
+           # union receivers with overloaded declarations: checkAndPropagateArgsForUnionWithReturnT against Bind.bindUnion
+           "bindu": common.run_stream(ctx, "bindu", callcheck.bindu_ops(ctx.rng, ctx.pick(8000, 80000)), cwd=common.make_workdir(ctx, "bindcfg"))}
     replay_k33(ctx)
     failures = callcheck.run_calls(ctx, ctx.pick(22, 220), 14, "a")["C08"]
 
